@@ -32,7 +32,7 @@ func init() {
 			Cfg:          sim.RunConfig{Grace: 2 * time.Minute, Horizon: 2 * time.Hour, StepCap: 1500000},
 			RunsQuick:    3000,
 			RunsThorough: 100000,
-			Real: []string{"service/rtsp sessions: tcpPushStream, tcpConsumer (TCP and WebSocket), udpConsumer", "service/wsp control + data channel", "service/flv HTTP and WebSocket consumers + av/format/flv muxer/writer",
+			Real: []string{"service/rtsp sessions: tcpPushStream, tcpConsumer (TCP and WebSocket), udpConsumer, multicastConsumer + multicastProxy", "service/wsp control + data channel", "service/flv HTTP and WebSocket consumers + av/format/flv muxer/writer",
 				"HTTP mux, stream/API handlers, websocket upgrade", "media registry, Stream, consumptions, GOP cache", "stats connection counters", "Service.Close (shutdown)"},
 			Stub: []string{"TCP = sim.Conn (every read/write a schedule point)", "UDP = simnet in-memory sockets (ordered, lossless)", "HTTP/1.1 connection loop = harness (one request per connection)", "clients = harness tasks (gorilla/websocket for WebSocket transports)"},
 			Assumptions: []string{
@@ -41,10 +41,10 @@ func init() {
 			},
 		}
 		if prop == "C01" {
-			d.Rule = "one run = 1 publisher (real RTSP/TCP record session or harness stream), 2-5 consumers over {rtsp-tcp, rtsp-udp, ws-rtsp, wsp, http-flv, ws-flv} joining after tape-chosen delays, some leaving early, 30-90 packets (video/audio/RTCP, 20..20000 bytes); " +
+			d.Rule = "one run = 1 publisher (real RTSP/TCP record session or harness stream), 2-5 consumers over {rtsp-tcp, rtsp-udp, rtsp-multicast, ws-rtsp, wsp, http-flv, ws-flv} joining after tape-chosen delays, some leaving early, 30-90 packets (video/audio/RTCP, 20..20000 bytes); " +
 				"each RTP client's frames per channel map to strictly increasing published indices with byte-identical payloads, and every packet published after its PLAY answer arrives (to the end, or to its departure); FLV clients: valid FLV whose NAL/AAC payloads are published units in order, at most once. " +
 				"distinct = decision-sequence hash; non-trivial = at least one pre-emption"
-			d.RequiredProbes = []string{"fan.kind.tcp", "fan.kind.udp", "fan.kind.ws", "fan.kind.wsp", "fan.kind.flv", "fan.kind.wsflv", "fan.real-pusher", "fan.left-early", "fan.complete-run-checked"}
+			d.RequiredProbes = []string{"fan.kind.tcp", "fan.kind.udp", "fan.kind.ws", "fan.kind.wsp", "fan.kind.flv", "fan.kind.wsflv", "fan.kind.mcast", "fan.real-pusher", "fan.left-early", "fan.complete-run-checked"}
 		} else {
 			d.Rule = "same scenario; the stream ends by {publisher disconnect, publisher TEARDOWN, replacement by a new publisher, DELETE /api/v1/streams, Unregist, server shutdown} while consumers are attached, attaching or leaving; " +
 				"every attached client sees its connection closed by the server within 5 simulated seconds, the ended stream's consumer count is 0 (never negative at any sample), rtsp/flv/wsp active counters return to their start values, no UDP socket stays open, no session/delivery/conversion goroutine survives. " +
@@ -70,7 +70,10 @@ type fanConsumer struct {
 	audio      bool
 
 	cl       *rtspClient
-	ip       string
+	ip       string         // udp: the client's address; mcast: the group address
+	ports    map[string]int // udp/mcast: destination port -> media channel
+	dgEnd    int            // mcast: ... and when it left (0: stayed)
+	dgStart  int            // mcast: datagrams the group had received when this member's PLAY was answered
 	played   bool
 	playedAt time.Time
 	after    int // packets the publisher had handed over when the PLAY / GET answer arrived
@@ -106,9 +109,12 @@ func buildSvcFan(tier string, prop string) sim.Scenario {
 		nCons := 2 + tp.Choose(4)
 		gap := []time.Duration{5 * time.Millisecond, 20 * time.Millisecond, 40 * time.Millisecond}[tp.Choose(3)]
 		span := time.Duration(nPk) * gap
-		kinds := []string{"tcp", "udp", "ws", "wsp", "flv", "wsflv"}
+		kinds := []string{"tcp", "udp", "ws", "wsp", "flv", "wsflv", "mcast"}
 		for i := 0; i < nCons; i++ {
 			c := &fanConsumer{kind: kinds[tp.Choose(len(kinds))], name: fmt.Sprintf("c%d", i), audio: tp.Choose(3) != 0}
+			if c.kind == "mcast" && !realPusher { // only a pushed stream has a multicast proxy
+				c.kind = "udp"
+			}
 			switch tp.Choose(4) {
 			case 0: // before the first packet
 			case 3: // around the end of the stream
@@ -244,7 +250,7 @@ func buildSvcFan(tier string, prop string) sim.Scenario {
 				if c.joinDelay > 0 {
 					w.Sleep(c.joinDelay)
 				}
-				fanConsume(w, sw, c, base, pubN)
+				fanConsume(w, sw, c, base, pubN, func(ip string) int { dmu.Lock(); defer dmu.Unlock(); return len(dgrams[ip]) })
 			})
 		}
 
@@ -354,11 +360,24 @@ func buildSvcFan(tier string, prop string) sim.Scenario {
 					data []byte
 				}
 				var got []rx
-				if c.kind == "udp" {
-					for _, d := range dgrams[c.ip] {
+				if c.kind == "udp" || c.kind == "mcast" {
+					ds := dgrams[c.ip]
+					if c.kind == "mcast" {
+						if c.dgStart > len(ds) {
+							c.dgStart = len(ds)
+						}
+						if c.dgEnd > 0 && c.dgEnd < len(ds) {
+							ds = ds[:c.dgEnd]
+						}
+						ds = ds[c.dgStart:]
+					}
+					for _, d := range ds {
 						port := d.To[strings.LastIndexByte(d.To, ':')+1:]
-						ch, ok := map[string]int{"5000": 0, "5001": 1, "5002": 2, "5003": 3}[port]
+						ch, ok := c.ports[port]
 						if !ok {
+							if c.kind == "mcast" { // the group also carries the tracks this member did not SETUP
+								continue
+							}
 							w.Fail("C01/wrong-destination", "udp client %s: a datagram was sent to port %s, which no SETUP named", c.name, port)
 							return
 						}
@@ -398,7 +417,7 @@ func buildSvcFan(tier string, prop string) sim.Scenario {
 				}
 				// completeness: nothing is dropped for backlog here, so among the packets published after the
 				// PLAY answer a client that stayed misses none, and a client that left misses only a tail
-				if c.eof || c.left {
+				{
 					lastHave := -1
 					for i := len(pubs) - 1; i >= c.after && lastHave < 0; i-- {
 						if have[i] {
@@ -496,17 +515,17 @@ func buildSvcFan(tier string, prop string) sim.Scenario {
 }
 
 // fanConsume runs one client from connect to the close of its connection.
-func fanConsume(w *sim.World, sw *svcWorld, c *fanConsumer, base string, pubN func() int) {
+func fanConsume(w *sim.World, sw *svcWorld, c *fanConsumer, base string, pubN func() int, groupLen func(ip string) int) {
 	const forever = 10 * time.Minute
 	stay := forever
 	if c.leaveAfter > 0 {
 		stay = c.leaveAfter
 	}
 	switch c.kind {
-	case "tcp", "udp", "ws", "wsp":
+	case "tcp", "udp", "ws", "wsp", "mcast":
 		var err error
 		switch c.kind {
-		case "tcp", "udp":
+		case "tcp", "udp", "mcast":
 			c.cl = sw.rtspConnect(c.name, 1<<20)
 			c.ip = c.cl.ip
 		case "ws":
@@ -522,8 +541,12 @@ func fanConsume(w *sim.World, sw *svcWorld, c *fanConsumer, base string, pubN fu
 			if c.kind == "udp" {
 				return fmt.Sprintf("RTP/AVP;unicast;client_port=%d-%d", 5000+lo, 5001+lo)
 			}
+			if c.kind == "mcast" {
+				return "RTP/AVP;multicast"
+			}
 			return fmt.Sprintf("RTP/AVP/TCP;unicast;interleaved=%d-%d", lo, lo+1)
 		}
+		c.ports = map[string]int{}
 		steps := []struct {
 			m, u string
 			h    map[string]string
@@ -546,15 +569,48 @@ func fanConsume(w *sim.World, sw *svcWorld, c *fanConsumer, base string, pubN fu
 				c.cl.close()
 				return
 			}
+			if c.kind == "mcast" && s.m == "SETUP" { // destination=<group>;port=<rtp>-<rtcp>
+				var lo, hi int
+				for _, f := range strings.Split(m.Header["transport"], ";") {
+					if strings.HasPrefix(f, "destination=") {
+						c.ip = strings.TrimPrefix(f, "destination=")
+					}
+					if strings.HasPrefix(f, "port=") {
+						fmt.Sscanf(f, "port=%d-%d", &lo, &hi)
+					}
+				}
+				ch := 0
+				if strings.HasSuffix(s.u, "streamid=1") {
+					ch = 2
+				}
+				if c.ip == "" || lo == 0 {
+					c.note = "multicast SETUP answered without destination/port: " + m.Header["transport"]
+					c.cl.close()
+					return
+				}
+				c.ports[fmt.Sprint(lo)], c.ports[fmt.Sprint(hi)] = ch, ch+1
+			}
+		}
+		if c.kind == "udp" {
+			c.ports = map[string]int{"5000": 0, "5001": 1}
+			if c.audio {
+				c.ports["5002"], c.ports["5003"] = 2, 3
+			}
 		}
 		// the answer may precede the attach inside the server (response first, StartConsume second):
 		// once a fake-clock sleep returned, every runnable server goroutine has run until it blocked
 		w.Sleep(time.Millisecond)
 		c.after = pubN()
+		if c.kind == "mcast" {
+			c.dgStart = groupLen(c.ip)
+		}
 		c.played, c.playedAt = true, time.Now()
 		err = c.cl.drain(stay)
 		if c.leaveAfter > 0 && isTimeout(err) {
 			c.left, c.leftN = true, pubN()
+			if c.kind == "mcast" {
+				c.dgEnd = groupLen(c.ip)
+			}
 			w.Probe("fan.left-early")
 			c.cl.close()
 			return
